@@ -546,6 +546,28 @@ theorem C11_textgrid (t : List Timed) (o : TgWriteOpts)
 example : readTextGrid .byStart ⟨⟨0, 0⟩, ⟨3, 0⟩, "", ⟨0, 0⟩, ⟨3, 0⟩, .intervals [(⟨1, 0⟩, ⟨2, 0⟩, "a")]⟩ (.name "") (some "")
     = .ok ([("", 0, 1), ("a", 1, 2), ("", 2, 3)], 0, 3) := by decide +kernel
 
+/-- A gap narrower than a millisecond is a gap (round 4, seed C11-d2): written with four digits, the stretch from
+`0.2000` to `0.2003` is unlabelled in the file, and reading with a fill token labels exactly it — `C11_textgrid_fill`
+has no tolerance in it, whatever the precision of the file (instance through `C11_textgrid_roundtrip`). At the
+default three digits both boundaries print `0.200`: the same transcript has no gap in that file and none is
+filled. -/
+example : ∃ f, writeTextGrid [("a", 1/10, 1/5), ("b", 2003/10000, 3/10)] ⟨none, none, "w", none, 4⟩ = .ok f ∧
+    readTextGrid .byStart f (.idx 0) (some "sil")
+      = .ok ([("a", 1/10, 1/5), ("sil", 1/5, 2003/10000), ("b", 2003/10000, 3/10)], 1/10, 3/10) := by
+  obtain ⟨f, hw, _, hr⟩ := C11_textgrid_roundtrip [("a", 1/10, 1/5), ("b", 2003/10000, 3/10)]
+    ⟨none, none, "w", none, 4⟩ (.idx 0) (by simp) (by simp; norm_num) (by simp) (by simp) (.inl rfl)
+  refine ⟨f, hw, ?_⟩
+  rw [C11_textgrid_fill, hr]
+  decide +kernel
+
+example : ∃ f, writeTextGrid [("a", 1/10, 1/5), ("b", 2003/10000, 3/10)] ⟨none, none, "w", none, 3⟩ = .ok f ∧
+    readTextGrid .byStart f (.idx 0) (some "sil") = .ok ([("a", 1/10, 1/5), ("b", 1/5, 3/10)], 1/10, 3/10) := by
+  obtain ⟨f, hw, _, hr⟩ := C11_textgrid_roundtrip [("a", 1/10, 1/5), ("b", 2003/10000, 3/10)]
+    ⟨none, none, "w", none, 3⟩ (.idx 0) (by simp) (by simp; norm_num) (by simp) (by simp) (.inl rfl)
+  refine ⟨f, hw, ?_⟩
+  rw [C11_textgrid_fill, hr]
+  decide +kernel
+
 /-- **C11_textgrid_point_rule**: the inference rule of `write_textgrid` — a tier is written as points when
 every segment's start and end print identically AT THE PRINT PRECISION — is exactly the condition under which
 a point tier reads back what an interval tier would have read back: nothing is lost by dropping the end times
